@@ -257,6 +257,77 @@ func (g *Gen) Generate() *Program {
 	for i := 0; i < ne; i++ {
 		g.genEntry(i)
 	}
+	// type aliases: a few of the types the module uses are spelled through an alias everywhere (declarations,
+	// constructors); the anonymous type then only occurs through its alias, which permutes type arenas
+	if g.on("type.alias") && r.Chance(1, 3) {
+		seen := map[*Type]bool{}
+		var used []*Type
+		note := func(t *Type) {
+			for t != nil && !seen[t] {
+				seen[t] = true
+				if (t.Kind == KVec || t.Kind == KMat || t.Kind == KF32 || t.Kind == KI32 || t.Kind == KU32) && !t.IsAbstract() {
+					used = append(used, t)
+				}
+				if t.Kind == KStruct {
+					for _, m := range t.Members {
+						if !seen[m.Type] {
+							seen[m.Type] = true
+							if (m.Type.Kind == KVec || m.Type.Kind == KMat) && !m.Type.IsAbstract() {
+								used = append(used, m.Type)
+							}
+						}
+					}
+				}
+				t = t.Elem
+			}
+		}
+		for _, d := range g.M.Decls {
+			switch {
+			case d.Struct != nil:
+				note(d.Struct)
+			case d.Var != nil:
+				note(d.Var.Ty)
+			case d.Func != nil:
+				for _, p := range d.Func.Params {
+					note(p.Ty)
+				}
+				note(d.Func.Ret)
+			}
+		}
+		// finding F132: a module-scope constant / variable initialiser that constructs a value through an alias
+		// (const C = T34(...)) is rejected ("unsupported call expression"); such types keep their own spelling
+		if !g.on("type.alias.in-module-initialiser") {
+			inInit := map[*Type]bool{}
+			for _, d := range g.M.Decls {
+				if d.Var != nil && d.Var.Init != nil {
+					WalkExpr(d.Var.Init, func(e Expr) {
+						if t := e.T(); t != nil {
+							for x := t; x != nil; x = x.Elem {
+								inInit[x] = true
+							}
+						}
+					})
+				}
+			}
+			var keep []*Type
+			for _, t := range used {
+				if !inInit[t] {
+					keep = append(keep, t)
+				}
+			}
+			used = keep
+		}
+		na := r.Range(1, 2)
+		for k := 0; k < na && len(used) > 0; k++ {
+			i := r.Intn(len(used))
+			t := used[i]
+			used = append(used[:i], used[i+1:]...)
+			a := &Alias{Name: g.name("T"), Ty: t}
+			g.M.AliasOf[t] = a
+			g.M.Decls = append([]Decl{{Alias: a}}, g.M.Decls...)
+			g.feat("type.alias." + t.ShapeName())
+		}
+	}
 	if g.on("decl.reorder") && r.Chance(1, 2) {
 		g.feat("decl.reorder")
 		ds := g.M.Decls
